@@ -67,17 +67,16 @@ def expectedSites : List (String × String × String × Bool × String) := [
   ("src/vm/instructions.go", "opSuicide", "AddBalance", false, "suicide")
 ]
 
-/-- the functions the model transcribes: ledger-relevant calls, every fork test `IsProposalNNN()` (the flag
-    inventory: a new, removed or moved fork test in a ledger path changes the sequence) and every `return`, in source order
+/-- the functions the model transcribes: ledger-relevant calls and every `return`, in source order
     (e.g. `AccountDB.Suicide` has no return between its nil test and zeroing the balance) -/
 def expectedOrder : List (String × List String) := [
-  ("src/core/vmexecutor.go:VMExecutor.Execute", ["IsProposal013", "IsProposal006", "IsProposal007", "BeforeExecute", "IsProposal018", "Snapshot", "Execute", "IsProposal018", "RevertToSnapshot", "IsProposal027", "deductGasFee", "IsProposal006", "IsProposal007", "IsProposal013", "IsProposal015", "return"]),
+  ("src/core/vmexecutor.go:VMExecutor.Execute", ["BeforeExecute", "Snapshot", "Execute", "RevertToSnapshot", "deductGasFee", "return"]),
   ("src/core/vmexecutor.go:VMExecutor.after", ["return", "Add", "CalculateReward", "Add", "CheckAndMove", "CheckAndMove"]),
   ("src/core/vmexecutor.go:deductGasFee", ["return", "GetBalance", "Cmp", "SubBalance", "AddBalance"]),
   ("src/executor/base_executor.go:baseFeeExecutor.BeforeExecute", ["validateNonce", "return", "ProcessFee", "return", "return"]),
   ("src/executor/contract_executor.go:contractExecutor.BeforeExecute", ["validateNonce", "return", "ProcessFee", "return", "decodeContractData", "return", "preCheckContractFee", "return", "return"]),
-  ("src/executor/contract_executor.go:contractExecutor.Execute", ["return", "IsProposal015", "IntrinsicGas", "return", "return", "IsProposal015", "IsProposal017", "IsProposal026", "Create", "IsProposal007", "Call", "IsProposal015", "GetBalance", "Cmp", "SubBalance", "AddBalance", "return", "return"]),
-  ("src/executor/contract_executor.go:preCheckContractFee", ["IsProposal015", "GetBalance", "Cmp", "Add", "return", "return"]),
+  ("src/executor/contract_executor.go:contractExecutor.Execute", ["return", "IntrinsicGas", "return", "return", "Create", "Call", "GetBalance", "Cmp", "SubBalance", "AddBalance", "return", "return"]),
+  ("src/executor/contract_executor.go:preCheckContractFee", ["GetBalance", "Cmp", "Add", "return", "return"]),
   ("src/executor/jsonrpc_executor.go:jsonrpcExecutor.BeforeExecute", ["validateNonce", "return", "ProcessFee", "return", "decodeContractData", "return", "preCheckContractFee", "return", "return"]),
   ("src/executor/miner_executor.go:minerAddExecutor.Execute", ["return", "return", "return", "AddStake"]),
   ("src/executor/miner_executor.go:minerApplyExecutor.Execute", ["return", "return", "return", "AddMiner", "return"]),
@@ -90,22 +89,34 @@ def expectedOrder : List (String × List String) := [
   ("src/service/miner_manager.go:MinerManager.RemoveMiner", ["IsContract", "SetData", "SetData", "SetData", "SetData", "return", "SetData", "SetData"]),
   ("src/service/refund_manager.go:RefundManager.CheckAndMove", ["return", "return", "AddBalance"]),
   ("src/service/refund_manager.go:RefundManager.GetRefundStake", ["GetMiner", "return", "return", "return", "RemoveMiner", "UpdateMiner", "return"]),
-  ("src/service/transaction_pool.go:TxPool.ProcessFee", ["GetBalance", "IsProposal026", "Cmp", "return", "SubBalance", "AddBalance", "return"]),
+  ("src/service/transaction_pool.go:TxPool.ProcessFee", ["GetBalance", "Cmp", "return", "SubBalance", "AddBalance", "return"]),
   ("src/storage/account/accountdb.go:AccountDB.Suicide", ["return", "GetBalance", "setBalance", "return"]),
-  ("src/storage/account/accountdb_tuntun.go:AccountDB.AddFT", ["return", "Add", "IsProposal002", "SetData", "setData", "return", "return", "AddFT"]),
-  ("src/storage/account/accountdb_tuntun.go:AccountDB.SubFT", ["return", "Cmp", "return", "IsProposal002", "SetData", "setData", "return", "return", "SubFT"]),
+  ("src/storage/account/accountdb_tuntun.go:AccountDB.AddFT", ["return", "Add", "SetData", "setData", "return", "return", "AddFT"]),
+  ("src/storage/account/accountdb_tuntun.go:AccountDB.SubFT", ["return", "Cmp", "return", "SetData", "setData", "return", "return", "SubFT"]),
   ("src/vm/evm.go:EVM.AuthCall", ["return", "Sign", "CanTransfer", "return", "Snapshot", "Sign", "return", "Transfer", "RevertToSnapshot", "return"]),
   ("src/vm/evm.go:EVM.Call", ["return", "Sign", "CanTransfer", "return", "Snapshot", "Sign", "return", "Transfer", "RevertToSnapshot", "return"]),
   ("src/vm/evm.go:EVM.CallCode", ["return", "CanTransfer", "return", "Snapshot", "RevertToSnapshot", "return"]),
   ("src/vm/evm.go:EVM.DelegateCall", ["return", "Snapshot", "RevertToSnapshot", "return"]),
   ("src/vm/evm.go:EVM.StaticCall", ["return", "Snapshot", "AddBalance", "RevertToSnapshot", "return"]),
-  ("src/vm/evm.go:EVM.create", ["return", "return", "CanTransfer", "return", "IsProposal006", "IsProposal007", "return", "Snapshot", "Transfer", "IsProposal026", "RevertToSnapshot", "return"]),
+  ("src/vm/evm.go:EVM.create", ["return", "return", "CanTransfer", "return", "return", "Snapshot", "Transfer", "RevertToSnapshot", "return"]),
   ("src/vm/init.go:CanTransfer", ["Sign", "return", "return", "Cmp", "GetBalance"]),
   ("src/vm/init.go:Transfer", ["SubBalance", "AddBalance"]),
   ("src/vm/instructions.go:opStake", ["ParseUint", "GetMinerIdByAccount", "AddStake", "return"]),
   ("src/vm/instructions.go:opSuicide", ["GetBalance", "AddBalance", "Suicide", "return"]),
   ("src/vm/instructions.go:opUnStake", ["GetMinerIdByAccount", "ParseUint", "GetRefundStake", "Cmp", "AddRefundInfo", "AddRefundInfo", "Add", "return"]),
   ("src/vm/instructions.go:opUnStakeAll", ["GetMinerIdByAccount", "return", "GetRefundStake", "return", "AddRefundInfo", "Add", "return"])
+]
+
+/-- the flag inventory: which fork tests each transcribed function makes (sorted multiset: a new or removed
+    `IsProposalNNN()` on a ledger path breaks `flags_as_modelled`; moving one among independent statements does not) -/
+def expectedFlagReads : List (String × List String) := [
+  ("src/core/vmexecutor.go:VMExecutor.Execute", ["IsProposal006", "IsProposal006", "IsProposal007", "IsProposal007", "IsProposal013", "IsProposal013", "IsProposal015", "IsProposal018", "IsProposal018", "IsProposal027"]),
+  ("src/executor/contract_executor.go:contractExecutor.Execute", ["IsProposal007", "IsProposal015", "IsProposal015", "IsProposal015", "IsProposal017", "IsProposal026"]),
+  ("src/executor/contract_executor.go:preCheckContractFee", ["IsProposal015"]),
+  ("src/service/transaction_pool.go:TxPool.ProcessFee", ["IsProposal026"]),
+  ("src/storage/account/accountdb_tuntun.go:AccountDB.AddFT", ["IsProposal002"]),
+  ("src/storage/account/accountdb_tuntun.go:AccountDB.SubFT", ["IsProposal002"]),
+  ("src/vm/evm.go:EVM.create", ["IsProposal006", "IsProposal007", "IsProposal026"])
 ]
 
 def hexOf (n : Nat) : String := String.ofList (Nat.toDigits 16 n)
@@ -130,6 +141,26 @@ def expectedConsts : List (String × String) := [
   ("src/vm/param.go:TxGasContractCreation", toString txGasCreate)
 ]
 
+/-- package-level state written inside the files of the ledger path: only the start-up singletons and loggers, and the
+    process-wide cache of the token contract address (`loadContractCache`, written until the binding exists). No
+    transaction path assigns to, or mutates in place, a package-level `big.Int` (fee, gas price, `ten`, `big0` …). -/
+def expectedGlobalWrites : List (String × String × String) := [
+  ("src/service/miner_manager.go", "InitMinerManager", "assign MinerManagerImpl"),
+  ("src/service/miner_manager.go", "InitMinerManager", "assign MinerManagerImpl"),
+  ("src/service/refund_manager.go", "InitRefundManager", "assign RefundManagerImpl"),
+  ("src/service/refund_manager.go", "InitRefundManager", "assign RefundManagerImpl"),
+  ("src/service/refund_manager.go", "InitRefundManager", "assign RefundManagerImpl"),
+  ("src/service/refund_manager.go", "InitRefundManager", "assign RefundManagerImpl"),
+  ("src/service/reward_calculator.go", "InitRewardCalculator", "assign RewardCalculatorImpl"),
+  ("src/service/reward_calculator.go", "InitRewardCalculator", "assign RewardCalculatorImpl"),
+  ("src/service/transaction_pool.go", "initTransactionPool", "assign txpoolInstance"),
+  ("src/storage/account/accountdb_eth.go", "AccountDB.loadContractCache", "assign rpgContractAddress"),
+  ("src/vm/init.go", "InitVM", "assign logger")
+]
+
+/-- The functions of the ledger path keep no hidden package-level state between calls (go/ast inventory). -/
+theorem globals_untouched : LedgerFacts.globalWrites = expectedGlobalWrites := by decide
+
 /-- No ledger call site is unaccounted for, and no "result used" flag has changed. -/
 theorem sites_accounted :
     LedgerFacts.sites = expectedSites.map (fun e => (e.1, e.2.1, e.2.2.1, e.2.2.2.1)) := by decide
@@ -140,6 +171,10 @@ theorem sites_mapped : expectedSites.all (fun e => e.2.2.2.2 != "UNMAPPED") = tr
 /-- Inside every transcribed function the ledger-relevant calls are those, in that order, the model follows
     (balance test before debit, credit/debit pairs, snapshot / revert placement). -/
 theorem order_as_transcribed : LedgerFacts.order = expectedOrder := by decide
+
+/-- The ledger paths test exactly the fork flags the model takes as input (002, 015, 017, 018, 026, 027; 006/007/013 are
+    nonce / log bookkeeping outside the ledger). -/
+theorem flags_as_modelled : LedgerFacts.flagReads = expectedFlagReads := by decide
 
 /-- The constants of the model are the constants of the source. -/
 theorem constants_match : LedgerFacts.consts = expectedConsts := by decide
